@@ -202,8 +202,9 @@ func (m *Muxer) WriteData(d *MuxerData) (int, error) {
 
 		if writeAf {
 			pkt.AdaptationField = d.AdaptationField
-			// one byte for adaptation field length field
-			pktLen += 1 + int(calcPacketAdaptationFieldLength(d.AdaptationField))
+			// adaptation field length field included, computed as an int since an oversized adaptation field doesn't
+			// fit in a uint8
+			pktLen += calcPacketAdaptationFieldSize(d.AdaptationField)
 			writeAf = false
 		}
 
